@@ -32,6 +32,13 @@ def minLen : Kind → Nat
   | .message => 14
   | .bcmAnimate => 11
 
+/-- the longest encoding of any value of the kind (a longer packet is no encoding of the kind, whatever its bytes) -/
+def maxLen : Kind → Nat
+  | .bcmChange => 11
+  | .bcmAnimate => 15
+  | .data => 65541
+  | k => minLen k
+
 def bcmLen (tag : UInt8) : Option Nat :=
   if tag = 0 ∨ tag = 1 then some 2 else if tag = 2 then some 4 else if tag = 3 ∨ tag = 4 then some 5
   else if tag = 5 then some 6 else none
@@ -69,8 +76,8 @@ def codeOf (d : List UInt8) : Option UInt16 :=
 /-- Bool form of `CApplies` (C05) -/
 def cappliesB (r : CErr) (k : Kind) (p : Packet) : Bool :=
   match r with
-  | .wrongSize => decide (p.data.length < minLen k) ||
-      (match requiredLen k p.data with | some n => n != p.data.length | none => false)
+  | .wrongSize => (decide (p.data.length < minLen k) ||
+      (match requiredLen k p.data with | some n => n != p.data.length | none => false)) || decide (maxLen k < p.data.length)
   | .wrongType => p.isError
   | .wrongEventType => match codeOf p.data with | some c => c != k.code | none => false
   | .unknownEnumVariant => unknownTagB k p.data
